@@ -25,9 +25,12 @@
   consistent), and start-up enqueues every existing primary after the watch is set
   (`init_inv`: every item starts triggered).
 
-  Limits (partial): the goroutine interleaving inside processWatched is whatever the Go
-  scheduler does; a reconcile reads all its inputs in one atomic `read` step here (a write
-  between two reads of one pass produces a fresh token, so the invariant is unaffected).
+  Limits (partial): `dedup` and `deliver` are atomic here; the hand-off of the map between the
+  two goroutines of processWatched, a delivery parked between lookup and trigger, and
+  registration in that window are the fine model Cosi.Model.Handoff / Cosi.Props.C05Handoff
+  (same invariant, every schedule; `takeKey_trigger_is_deliver` ties the two). A reconcile
+  reads all its inputs in one atomic `read` step (a write between two reads of one pass
+  produces a fresh token, so the invariant is unaffected).
 -/
 import Cosi.Model.Pipeline
 open Cosi Cosi.Pipeline
